@@ -79,12 +79,43 @@ def _M():
     return np.array([[2., 1., 0.], [1., 3., 1.], [0., 1., 4.]])
 
 
+def _M4():
+    """4x4 symmetric positive definite with `_M()` as leading block (so a 3x3 slice of it is `_M()`)"""
+    A = np.eye(4) * 5.
+    A[:3, :3] = _M()
+    A[3, :3] = A[:3, 3] = 1.
+    return A
+
+
+def _kernel_fn(a, b):
+    return np.exp(-(a - b.T) ** 2)
+
+
+def _ada_nys(pre_mod, A):
+    """AdaNysPrecond draws its test matrix from NumPy's global generator: fixed seed, state put back"""
+    st = np.random.get_state()
+    try:
+        np.random.seed(0)
+        import logging
+        lvl = logging.root.level
+        logging.root.setLevel(logging.ERROR)   # "Non keyed randn used"
+        try:
+            return pre_mod.AdaNysPrecond(A, 2, bounds=(0.1, 10.))
+        finally:
+            logging.root.setLevel(lvl)
+    finally:
+        np.random.set_state(st)
+
+
 def kind_builders():
     """name of the class -> zero-argument constructor of a real 3x3 instance.  Classes found by
     reflection that have no entry here (or whose constructor fails on the NumPy backend) get a
     stub instance (allocated with __new__, attributes shape/dtype/annotations set by hand): the
-    resolver only looks at the class, `annotations` and, for Product, `Ms`."""
-    from cola.ops import (Adjoint, BlockDiag, Concatenated, Dense, Diagonal, Householder, Identity,
+    resolver only looks at the class, `annotations` and, for Product, `Ms`.
+    Round 5: the instances are chosen so that the rule BODIES of stream (c') run (non-singular, symmetric positive
+    definite where the kind allows it: `Sliced` / `Concatenated` now represent `_M()` itself); Kernel, FFT and
+    AdaNysPrecond have real constructors on the NumPy backend and are no stubs any more."""
+    from cola.ops import (FFT, Adjoint, BlockDiag, Concatenated, Dense, Diagonal, Householder, Identity, Kernel,
                           Kronecker, KronSum, Permutation, Product, ScalarMul, Sliced, Sparse, Sum,
                           Transpose, Triangular, Tridiagonal)
     from cola.linalg.algorithm_base import IterativeOperatorWInfo
@@ -111,9 +142,9 @@ def kind_builders():
         "Tridiagonal": lambda: Tridiagonal(np.array([1., 1.]), np.array([2., 2., 2.]), np.array([1., 1.])),
         "Transpose": lambda: Transpose(D()),
         "Adjoint": lambda: Adjoint(D()),
-        "Sliced": lambda: Sliced(Dense(np.arange(16.).reshape(4, 4)), (slice(0, 3), slice(0, 3))),
+        "Sliced": lambda: Sliced(Dense(_M4()), (slice(0, 3), slice(0, 3))),
         "Permutation": lambda: Permutation(np.array([1, 0, 2]), f8),
-        "Concatenated": lambda: Concatenated(Dense(np.ones((1, 3))), Dense(np.ones((2, 3))), axis=0),
+        "Concatenated": lambda: Concatenated(Dense(_M()[:1]), Dense(_M()[1:]), axis=0),
         "Householder": lambda: Householder(np.ones((3, 1))),
         "IterativeOperatorWInfo": lambda: IterativeOperatorWInfo(D(), GMRES()),
         "TriangularInv": lambda: inv_mod.TriangularInv(Triangular(np.tril(_M()), lower=True)),
@@ -122,6 +153,9 @@ def kind_builders():
         "ArnoldiUnary": lambda: unary_mod.ArnoldiUnary(D(), np.exp),
         "NystromPrecondLazy": lambda: pre_mod.NystromPrecondLazy(f8, (3, 3), np.eye(3)[:, :2], np.array(1.), np.array([2., 3.])),
         "NystromPrecond": lambda: pre_mod.NystromPrecond(cola.PSD(D()), 2),
+        "Kernel": lambda: Kernel(np.array([[0.], [1.], [2.]]), np.array([[0.], [1.], [2.]]), _kernel_fn, 3, 3),
+        "FFT": lambda: FFT(3, dtype=np.complex128),
+        "AdaNysPrecond": lambda: _ada_nys(pre_mod, cola.PSD(D())),
     }
 
 
@@ -133,6 +167,13 @@ def stub_instance(cls):
     o.xnp = cola.backends.np_fns if hasattr(cola, "backends") else None
     o.annotations = set()
     o.device = None
+    # Round 5: the class's own `_matmat` needs what only its constructor can provide (jvp / vjp of jax, a convolution of
+    # jax.scipy: Jacobian, Hessian, ConvolveND).  So that the BODIES of the rules selected for a stub run in stream (c')
+    # (to_dense, solves, Krylov iterations ... and the dispatch they do), the stub acts as the matrix `_M()`: instance
+    # attributes shadow the methods.  Rule selection never calls them.
+    M = _M()
+    o._matmat = lambda X: M @ X
+    o._rmatmat = lambda X: X @ M
     return o
 
 
@@ -361,7 +402,7 @@ def forms():
     form("nullspace(C)", "nullspace", ["K"], lambda C: ns(C))
     form("nullspace(C, tol)", "nullspace", ["K", "FLOAT"], lambda C, t: ns(C, t))
     form("nullspace(C, tol, pbar, info, method)", "nullspace", ["K", "FLOAT", "BOOL", "BOOL", "STR"],
-         lambda C, t, p, i, me: ns(C, t, p, i, me))
+         lambda C, t, p, i, me: ns(C, t, p, i, "dense" if isinstance(me, str) else me))  # a documented `method` (the STR element is eig's 'LM')
     return F
 
 
@@ -852,9 +893,334 @@ def emit_json(m, path):
     return js
 
 
+# --------------------------------------------------------------------------------------------
+# 8. regression tables of Properties/C04/PartH*.lean, rebuilt from /repo's git HISTORY
+# --------------------------------------------------------------------------------------------
+# Hand-written here and part of the statement of the PartH / PartI theorems: the three repaired commits, the
+# dispatched function each repaired, and the reduced class universe `rhier` (position = class id there).
+OUT_REGRESSION = os.path.join(ROOT, "lean", "ColaVerif", "Properties", "C04", "PartHTables.lean")
+HIST_DIR = os.path.join(ROOT, "work", "c04", "hist")
+_OPS = "cola.ops.operators."
+REGRESSION_CLASSES = [
+    "Any", "cola.ops.operator_base.LinearOperator", _OPS + "Dense", _OPS + "Identity", _OPS + "ScalarMul", _OPS + "Permutation",
+    _OPS + "Product", _OPS + "BlockDiag", _OPS + "Kronecker", _OPS + "Diagonal", _OPS + "Triangular",
+    f"{_OPS}Kronecker[{_OPS}Dense, {_OPS}Dense]", f"{_OPS}Product[{_OPS}Dense, {_OPS}Dense]",
+    "cola.linalg.algorithm_base.Algorithm", "cola.linalg.algorithm_base.Auto", "cola.linalg.decompositions.decompositions.Cholesky",
+    "cola.linalg.decompositions.decompositions.LU", "cola.linalg.inverse.cg.CG", "cola.linalg.inverse.gmres.GMRES",
+]
+REGRESSION_TABLES = [
+    {"fn": "inv", "commit": "f0220bc", "file": "cola/linalg/inverse/inv.py",
+     "title": "fix: inv(A, GMRES()) on structured operators no longer ties with the structural rules"},
+    {"fn": "dot", "commit": "1c4ad9a", "file": "cola/fns.py", "title": "fix: products with Identity resolve to a unique rule"},
+    {"fn": "kron", "commit": "b369c4a", "file": "cola/fns.py",
+     "title": "fix: kron(Kronecker, Kronecker) and kronsum(KronSum, KronSum) resolve to a unique rule"},
+]
+
+
+class _HStop(BaseException):
+    pass
+
+
+def _cname(c):
+    if c is ANY:
+        return "Any"
+    return c.__qualname__ if c.__module__ == "builtins" else f"{c.__module__}.{c.__qualname__}"
+
+
+def history_dump(fname):
+    """Runs INSIDE a historical tree (PYTHONPATH = an extracted `git archive <sha> cola`): the rules of the dispatched
+    function `fname` as plum registered them there, the subclass relation among REGRESSION_CLASSES, and what plum's REAL
+    resolver answers there on calls with instances of those classes (first resolution intercepted, call aborted).
+    -> JSON-able dict"""
+    from plum.resolver import Resolver
+    import_all()
+    builders = kind_builders()
+    short = {n: n.split("[")[0].split(".")[-1] for n in REGRESSION_CLASSES}
+    insts, by_name = {}, {"Any": ANY}
+    for n in REGRESSION_CLASSES:
+        b = builders.get(short[n])
+        if b is not None and short[n] not in insts:
+            insts[short[n]] = b()
+    from cola.linalg.algorithm_base import Algorithm
+    for c in [cola.ops.LinearOperator] + all_subclasses(cola.ops.LinearOperator) + [Algorithm] + all_subclasses(Algorithm) + \
+            [type(v) for v in insts.values()]:
+        by_name.setdefault(_cname(c), c)
+    missing = [n for n in REGRESSION_CLASSES if n not in by_name]
+    if missing:
+        raise RuntimeError(f"classes of the regression universe not found in this tree: {missing}")
+    rc = [by_name[n] for n in REGRESSION_CLASSES]
+    rid = {c: i for i, c in enumerate(rc)}
+
+    def sub(a, b):
+        return True if b is ANY else False if a is ANY else issubclass(a, b)
+    f = plum.dispatch.functions[fname]
+    f._resolve_pending_registrations()
+    live = list(f._resolver.signatures)
+    sigs, conds = [], []
+    for idx, s in enumerate(live):
+        cond = None
+        if s.condition is not None:
+            cond = len(conds)
+            conds.append(idx)
+        sigs.append({"tys": [[_cname(c) for c in hint_members(h)] for h in s.types],
+                     "va": [_cname(c) for c in hint_members(s.varargs)] if s.has_varargs else None,
+                     "prec": int(s.precedence), "cond": cond, "impl": impl_id(s.implementation),
+                     "cond_text": cond_text(s.condition) if s.condition is not None else None,
+                     "repr": ", ".join(plum.repr_short(t) for t in s.types)})
+    # ---- the real resolver of this tree on real instances
+    L = cola.linalg
+    ops = [insts[k] for k in ("LinearOperator", "Dense", "Identity", "ScalarMul", "Permutation", "Product", "BlockDiag",
+                              "Kronecker", "Diagonal", "Triangular")]
+
+    def steered(A):
+        import copy
+        out = [A]
+        for ann in ([cola.Unitary], []):
+            o = copy.copy(A)
+            o.annotations = set(ann) if not ann else set(A.annotations) | set(ann)
+            out.append(o)
+        return out
+    ops.append(cola.ops.Product(cola.ops.Dense(np.ones((3, 2))), cola.ops.Dense(np.ones((2, 3)))))
+    if fname == "inv":
+        calls = [(lambda A=A, a=a: L.inv(A, a)) for B in ops for A in steered(B) for a in (L.Auto(), L.Cholesky(), L.LU(), L.CG(), L.GMRES())]
+    elif fname == "dot":
+        calls = [(lambda A=A, B=B: A @ B) for A in ops for B in ops]
+    elif fname == "kron":
+        calls = [(lambda A=A, B=B: cola.kron(A, B)) for A in ops for B in ops]
+    else:
+        raise KeyError(fname)
+    observed, seen, n_calls = [], set(), 0
+    orig = Resolver.resolve
+    for thunk in calls:
+        rec = {}
+
+        def patched(rs, target):
+            if rec or rs is not f._resolver or not isinstance(target, tuple):
+                return orig(rs, target)
+            rec["args"] = target
+            try:
+                sg = orig(rs, target)
+                rec["out"] = ["U", next(i for i, s in enumerate(rs.signatures) if s is sg)]
+            except plum.AmbiguousLookupError:
+                rec["out"] = ["A"]
+            except plum.NotFoundLookupError:
+                rec["out"] = ["N"]
+            raise _HStop()
+        f._cache.clear()
+        Resolver.resolve = patched
+        try:
+            thunk()
+        except _HStop:
+            pass
+        except Exception:  # noqa: BLE001  (raised before `fname` is dispatched: nothing observed)
+            pass
+        finally:
+            Resolver.resolve = orig
+        n_calls += 1
+        if "out" not in rec or any(type(v) not in rid for v in rec["args"]):
+            continue
+        args = rec["args"]
+        bits = 0
+        for k, idx in enumerate(conds):
+            s = live[idx]
+            ok = (len(s.types) == len(args) or (len(s.types) < len(args) and s.has_varargs)) and \
+                all(plum._is_bearable(v, t) for v, t in zip(args, s.expand_varargs(len(args))))
+            if ok and s.condition(*args):
+                bits |= 1 << k
+        key = (tuple(rid[type(v)] for v in args), bits)
+        if key in seen:
+            prev = next(o for o in observed if (tuple(o["args"]), o["bits"]) == key)
+            if prev["out"] != rec["out"]:
+                raise RuntimeError(f"plum resolves {key} differently on two calls: {prev['out']} / {rec['out']}")
+            continue
+        seen.add(key)
+        observed.append({"args": list(key[0]), "bits": bits, "out": rec["out"]})
+    observed.sort(key=lambda o: (o["args"], o["bits"]))
+    return {"fn": fname, "cola": os.path.dirname(cola.__file__), "sigs": sigs,
+            "supers": [[j for j, b in enumerate(rc) if sub(a, b)] for a in rc], "observed": observed, "calls": n_calls}
+
+
+def _git(root, *args):
+    import subprocess
+    p = subprocess.run(["git", "-C", root] + list(args), capture_output=True)
+    return p.returncode, p.stdout, p.stderr.decode(errors="replace")
+
+
+def regression_history(repo_root=None):
+    """For every entry of REGRESSION_TABLES: extract `git archive <commit>^ cola` and `git archive <commit> cola` of the
+    repository that holds the cola under test (fallback: /repo), run `history_dump` in a fresh interpreter on each, and
+    translate class names into `rhier` ids.  -> dict(available, why?, tables: {fn: {pre, post, ...}}, supers)"""
+    import subprocess
+    from concurrent.futures import ThreadPoolExecutor
+    roots = [repo_root or os.path.dirname(os.path.dirname(os.path.abspath(cola.__file__))), "/repo"]
+    root = next((r for r in roots if all(_git(r, "rev-parse", "--verify", "-q", t["commit"] + "^{commit}")[0] == 0
+                                         for t in REGRESSION_TABLES)), None)
+    if root is None:
+        return {"available": False, "why": f"none of {roots} is a git repository that has the commits "
+                                           f"{[t['commit'] for t in REGRESSION_TABLES]}"}
+    jobs = []
+    for t in REGRESSION_TABLES:
+        for side, rev in (("pre", t["commit"] + "^"), ("post", t["commit"])):
+            sha = _git(root, "rev-parse", rev)[1].decode().strip()
+            src = _git(root, "show", f"{sha}:{t['file']}")
+            if src[0] != 0:
+                return {"available": False, "why": f"git show {rev}:{t['file']} failed: {src[2][:200]}"}
+            d = os.path.join(HIST_DIR, sha)
+            if not os.path.isdir(os.path.join(d, "cola")):
+                os.makedirs(d + ".tmp", exist_ok=True)
+                ar = subprocess.run(["git", "-C", root, "archive", sha, "cola"], capture_output=True)
+                if ar.returncode != 0:
+                    return {"available": False, "why": f"git archive {sha} failed: {ar.stderr.decode()[:200]}"}
+                subprocess.run(["tar", "-x", "-C", d + ".tmp"], input=ar.stdout, check=True)
+                os.replace(d + ".tmp", d)
+            if open(os.path.join(d, t["file"]), "rb").read() != src[1]:
+                raise RuntimeError(f"extracted tree {d} differs from git show {sha}:{t['file']}")
+            jobs.append((t, side, sha, d))
+
+    def run(job):
+        t, side, sha, d = job
+        env = dict(os.environ, PYTHONPATH=d)
+        p = subprocess.run([sys.executable, os.path.abspath(__file__), "--history-dump", t["fn"]], env=env, capture_output=True,
+                           cwd=d, timeout=900)
+        if p.returncode != 0:
+            raise RuntimeError(f"history dump of {t['fn']} at {sha[:7]} failed:\n" + (p.stdout + p.stderr).decode(errors="replace")[-1500:])
+        js = json.loads(p.stdout.decode().strip().split("\n")[-1])
+        if os.path.realpath(js["cola"]) != os.path.realpath(os.path.join(d, "cola")):
+            raise RuntimeError(f"history dump imported cola from {js['cola']}, not from {d}")
+        return js
+    with ThreadPoolExecutor(len(jobs)) as ex:
+        dumps = list(ex.map(run, jobs))
+    rid = {n: i for i, n in enumerate(REGRESSION_CLASSES)}
+    out = {"available": True, "repository": root, "tables": {}, "supers": dumps[0]["supers"]}
+    for (t, side, sha, d), js in zip(jobs, dumps):
+        if js["supers"] != out["supers"]:
+            raise RuntimeError(f"the subclass relation among the regression classes at {sha[:7]} differs from the one at {jobs[0][2][:7]}")
+        rows = []
+        for s in js["sigs"]:
+            bad = [c for h in s["tys"] + ([s["va"]] if s["va"] else []) for c in h if c not in rid]
+            if bad:
+                raise RuntimeError(f"{t['fn']} at {sha[:7]} mentions classes outside the regression universe: {bad}")
+            rows.append(dict(s, tys=[[rid[c] for c in h] for h in s["tys"]], va=[rid[c] for c in s["va"]] if s["va"] else None,
+                             names=s["tys"]))
+        e = out["tables"].setdefault(t["fn"], {"commit": t["commit"], "file": t["file"], "title": t["title"]})
+        e[side] = {"sha": sha, "sigs": rows, "observed": js["observed"], "calls": js["calls"]}
+    return out
+
+
+def _lean_res(o):
+    return {"U": f".unique {o[1]}" if o[0] == "U" else "", "A": ".ambiguous", "N": ".notFound"}[o[0]]
+
+
+def emit_regression_lean(H, path=OUT_REGRESSION):
+    """-> True when the file changed"""
+    o = []
+    w = o.append
+    w("/-  GENERATED by harness/translators/dump_rules.py (`regression_history`) from /repo's git HISTORY — DO NOT EDIT.")
+    w("    Regenerated on every run of `./check C04`; the committed copy only serves a fresh `lake build`.")
+    w("    For each repaired commit C of REGRESSION_TABLES: `<fn>_pre` = the rules of the dispatched function as plum")
+    w("    registers them on the tree `git archive C^ cola`, `<fn>_post` = the same on `git archive C cola`;")
+    w("    `<fn>_pre_observed` / `<fn>_post_observed` = what plum's REAL resolver answered on those trees on calls with")
+    w("    instances of the classes of `rhier` (first resolution intercepted).  Class ids are positions in `rnames`. -/")
+    w("import ColaVerif.Model.Dispatch")
+    w("")
+    w("namespace ColaVerif.Properties.C04")
+    w("open ColaVerif.Dispatch")
+    w("")
+    w("/-- ancestor mask from the list of super-classes (incl. the class itself and `Any` = 0) -/")
+    w("def Regression.maskOf (supers : List Nat) : Nat := supers.foldl (fun a j => a ||| (1 <<< j)) 0")
+    w("")
+    w("/-- the reduced class universe: the classes the three tables mention, `Dense`, and one runtime parametrisation each of")
+    w("    the `@parametric` kinds `Kronecker` and `Product` -/")
+    w("def Regression.rnames : List String := [")
+    for i, n in enumerate(REGRESSION_CLASSES):
+        w(f"  {json.dumps(n)}{',' if i + 1 < len(REGRESSION_CLASSES) else ''}  -- {i}")
+    w("]")
+    w("")
+    w("open Regression in")
+    w("/-- `issubclass` among these classes on the historical trees (same conventions as `Gen/RuleTable.lean: anc`) -/")
+    w("def Regression.ranc : List Nat := [")
+    for i, sup in enumerate(H["supers"]):
+        w(f"  maskOf {lean_list(str(j) for j in sup)}{',' if i + 1 < len(H['supers']) else ''}  -- {i} {REGRESSION_CLASSES[i].split('.')[-1] if '[' not in REGRESSION_CLASSES[i] else _short_param(REGRESSION_CLASSES[i])}")
+    w("]")
+    w("")
+    w(f"def Regression.rhier : Hier := ⟨Regression.ranc, {len(REGRESSION_CLASSES)}, packMasks {len(REGRESSION_CLASSES)} Regression.ranc⟩")
+    w("")
+    w("namespace Regression")
+    for fn, e in H["tables"].items():
+        for side in ("pre", "post"):
+            t = e[side]
+            rev = e["commit"] + ("^" if side == "pre" else "")
+            w("")
+            w(f"/-- `{fn}` in `{e['file']}` at /repo commit {rev} = {t['sha'][:12]} (\"{e['title']}\"" + (": its parent" if side == "pre" else "") + ")")
+            for s in t["sigs"]:
+                if s["cond"] is not None:
+                    w(f"    condition bit {s['cond']}: {s['cond_text']}")
+            w("-/")
+            w(f"def {fn}_{side} : List Sig := [")
+            for i, s in enumerate(t["sigs"]):
+                tys = lean_list(lean_hint(h) for h in s["tys"])
+                va = "none" if s["va"] is None else f"(some {lean_hint(s['va'])})"
+                cond = "none" if s["cond"] is None else f"(some {s['cond']})"
+                prec = str(s["prec"]) if s["prec"] >= 0 else f"({s['prec']})"
+                w(f"  ⟨{tys}, {va}, {prec}, {cond}⟩{',' if i + 1 < len(t['sigs']) else ''}  -- {i}: ({s['repr']}) @ {s['impl']}")
+            w("]")
+            w(f"/-- answers of plum's real resolver on the tree {t['sha'][:12]} ({t['calls']} calls, {len(t['observed'])} distinct tuples) -/")
+            w(f"def {fn}_{side}_observed : List (Tup × Res) := [")
+            obs = [f"(⟨{lean_hint(x['args'])}, {x['bits']}⟩, {_lean_res(x['out'])})" for x in t["observed"]]
+            for i in range(0, len(obs), 4):
+                w("  " + ", ".join(obs[i:i + 4]) + ("," if i + 4 < len(obs) else ""))
+            w("]")
+    w("")
+    w("end Regression")
+    w("")
+    w("end ColaVerif.Properties.C04")
+    txt = "\n".join(o) + "\n"
+    old = open(path).read() if os.path.exists(path) else None
+    if old != txt:
+        with open(path, "w") as f:
+            f.write(txt)
+    return old != txt
+
+
+def _short_param(n):
+    return n.split("[")[0].split(".")[-1] + "[" + ", ".join(x.strip().split(".")[-1] for x in n.split("[")[1].rstrip("]").split(",")) + "]"
+
+
+def post_equals_today(H, m):
+    """`<fn>_post` of the history against the table of TODAY's working tree (`m`, the data Gen/RuleTable.lean is emitted
+    from), class ids translated by NAME; also `rhier` against today's subclass table.  -> {fn: True | description}"""
+    res = {}
+    name_id = {n: i for i, n in enumerate(m.class_names)}
+    missing = [n for n in REGRESSION_CLASSES if n not in name_id]
+    if missing:
+        return {"hierarchy": f"classes missing today: {missing}"}
+    ids = [name_id[n] for n in REGRESSION_CLASSES]
+    today_sup = [[j for j, b in enumerate(ids) if m.sub[a][b]] for a in ids]
+    res["hierarchy"] = True if today_sup == H["supers"] else "issubclass among the regression classes differs today"
+    back = {name_id[n]: i for i, n in enumerate(REGRESSION_CLASSES)}
+    for fn, e in H["tables"].items():
+        today = m.functions[fn]["sigs"]
+        try:
+            tr = [([[back[c] for c in h] for h in s["tys"]], [back[c] for c in s["va"]] if s["va"] is not None else None,
+                   s["prec"], s["cond"]) for s in today]
+        except KeyError as ex:
+            res[fn] = f"today's table mentions class {m.class_names[ex.args[0]]} outside the regression universe"
+            continue
+        post = [(s["tys"], s["va"], s["prec"], s["cond"]) for s in e["post"]["sigs"]]
+        if tr == post:
+            res[fn] = True
+        else:
+            diff = [i for i in range(max(len(tr), len(post))) if i >= len(tr) or i >= len(post) or tr[i] != post[i]]
+            res[fn] = f"today's table_{fn} ({len(tr)} rows) differs from {fn}_post at {e['commit']} ({len(post)} rows) in rows {diff}"
+    return res
+
+
 def main(argv):
     out_lean, out_json, quiet = OUT_LEAN, OUT_JSON, False
     it = iter(argv)
+    if argv[:1] == ["--history-dump"]:   # inside a historical tree (see regression_history)
+        print(json.dumps(history_dump(argv[1])))
+        return
     for a in it:
         if a == "--out-lean":
             out_lean = next(it)
